@@ -262,24 +262,38 @@ def buffer_rule(ctx, r):
     else:
         r.bad("early-return", "LineBuffer::fill can skip refilling without (quit mode ∧ binary data seen)", fn=f, construct="early")
     g = facts.fn(GLUE + "::ReadByLine::fill")
-    sq = g.calls_to(GLUE + "::ReadByLine::should_binary_quit")
-    if sq:
-        s = seed_after_call(g, sq[0], I(1))
-        vals = {x for v in s.ret_values.values() for x in value_set(v)}
-        if vals == {V("Ok", I(0))}:
-            r.ok("reader|quit", "should_binary_quit ⇒ Ok(false)", fn=g)
-        else:
-            r.bad("reader|quit", "ReadByLine::fill continues after binary data in quit mode", fn=g)
+    # value table over the reader's refill step (a helper such as should_binary_quit is evaluated in place): binary data
+    # seen ∧ quit mode ⇒ the step says stop; otherwise a successful read lets the search go on
+    from ..flow import table, ret_set
+    RD = "grep_searcher::line_buffer::LineBufferReader"
+    stop_bad, go_bad = [], []
+    for row, sx in table(facts, g, calls={RD + "::binary_byte_offset": [V("None", None), V("Some", I(5))],
+                                          "BinaryDetection::quit_byte": [V("None", None), V("Some", I(0))],
+                                          RD + "::fill": [V("Ok", I(1))]},
+                         callees=lambda p_: p_.startswith(GLUE + "::ReadByLine::")):
+        off = row[("call", RD + "::binary_byte_offset")][1] == "Some"
+        quit_ = row[("call", "BinaryDetection::quit_byte")][1] == "Some"
+        rets = set()
+        for v in ret_set(sx):
+            if v is not None and v[0] == "v" and v[2] is not None and v[2][0] == "s":
+                rets |= {V(v[1], y) for y in v[2][1]}
+            else:
+                rets.add(v)
+        cont = {v for v in rets if v is None or (v[0] == "v" and v[1] == "Ok" and v[2] != I(0))}
+        if off and quit_ and cont:
+            stop_bad.append("offset seen ∧ quit mode ⇒ %s" % sorted(map(str, cont)))
+        if not (off and quit_) and V("Ok", I(1)) not in rets and None not in rets and V("Ok", None) not in rets:
+            go_bad.append("offset %s, quit mode %s ⇒ %s" % (off, quit_, sorted(map(str, rets))))
+    if not g.calls_to(RD + "::binary_byte_offset") and not any(c.callee.startswith(GLUE + "::ReadByLine::") for c in g.calls()):
+        r.bad("reader|quit", "anchor-missing: ReadByLine::fill no longer asks the reader for its binary offset", fn=g)
+    elif stop_bad:
+        r.bad("reader|quit", "ReadByLine::fill continues after binary data in quit mode (%s)" % "; ".join(stop_bad)[:140], fn=g)
     else:
-        r.bad("reader|quit", "ReadByLine::fill never consults should_binary_quit", fn=g)
-    h = facts.fn(GLUE + "::ReadByLine::should_binary_quit")
-    tail = H.tail_expr(h.hir)
-    ok, detail = H.equivalent(tail, ["self.rdr.binary_byte_offset().is_some()", "self.config.binary.quit_byte().is_some()"],
-                              lambda v: all(v.values()))
-    if ok:
-        r.ok("reader|should_quit", "≡ offset seen ∧ quit mode", fn=h)
+        r.ok("reader|quit", "binary data seen ∧ quit mode ⇒ Ok(false)", fn=g)
+    if go_bad:
+        r.bad("reader|should_quit", "ReadByLine::fill stops a search that must go on: %s" % "; ".join(go_bad)[:160], fn=g)
     else:
-        r.bad("reader|should_quit", "should_binary_quit: %s" % detail, fn=h)
+        r.ok("reader|should_quit", "a successful read continues unless (offset seen ∧ quit mode)", fn=g)
 
 
 PR = "grep_printer"
@@ -288,52 +302,73 @@ PR = "grep_printer"
 def print_rule(ctx, r):
     facts = ctx.facts
     STD = PR + "::standard::StandardSink"
+    # value tables over (binary offset seen, convert mode[, match_count]): what is printed and what the search is told
+    from ..flow import table, ret_set
+
+    def rows_of(f):
+        for row, sx in table(facts, f, fields={(STD, "binary_byte_offset"): [V("None", None), V("Some", I(5))],
+                                               (STD, "match_count"): [I(0), I(2)]},
+                             calls={"BinaryDetection::convert_byte": [V("None", None), V("Some", I(0))]}):
+            seen = row[("field", (STD, "binary_byte_offset"))][1] == "Some"
+            conv = row[("call", "BinaryDetection::convert_byte")][1] == "Some"
+            cnt = row[("field", (STD, "match_count"))][1]
+            rets = set()
+            for v in ret_set(sx):
+                if v is not None and v[0] == "v" and v[1] == "Err":
+                    continue
+                if v is not None and v[0] == "v" and v[2] is not None and v[2][0] == "s":
+                    rets |= {V(v[1], y) for y in v[2][1]}
+                else:
+                    rets.add(v)
+            yield seen and conv, cnt, rets, sx
     for m in ("matched", "context"):
         f = facts.fn("<%s as %s>::%s" % (STD, SINK, m))
-        eb = ExprBuilder(f)
         sk = f.calls_to(PR + "::standard::StandardImpl::sink")
-        c1 = cond_switches(f, lambda e: is_call(e, "core::option::Option::is_some") and
-                           mentions_call(e, "grep_searcher::searcher::BinaryDetection::convert_byte"), eb)
-        c2 = cond_switches(f, lambda e: is_call(e, "core::option::Option::is_some") and
-                           mentions_field(e, STD, "binary_byte_offset"), eb)
-        if not sk or not c1 or not c2:
-            r.bad("standard|%s" % m, "StandardSink::%s: convert-mode guard missing (sink %d, convert test %d, offset test %d)"
-                  % (m, len(sk), len(c1), len(c2)), fn=f, construct="convert-guard")
+        if not sk or not f.calls_to("grep_searcher::searcher::BinaryDetection::convert_byte"):
+            r.bad("standard|%s" % m, "StandardSink::%s: convert-mode guard missing (sink %d, convert test %d)"
+                  % (m, len(sk), len(f.calls_to("grep_searcher::searcher::BinaryDetection::convert_byte"))), fn=f, construct="convert-guard")
             continue
-        forced = C.reach(f, [0], removed_edges={c1[0][2], c2[0][2]})
-        if sk[0].bb in forced:
+        printed, silent, told = [], [], []
+        for hidden, cnt, rets, sx in rows_of(f):
+            shown = any(c.bb in sx.exec_blocks for c in sk)
+            if hidden and shown:
+                printed.append(cnt)
+            if not hidden and not shown:
+                silent.append(cnt)
+            if hidden:
+                # a matching line after binary data: counted, not printed, and the search stops; a context line is not printed
+                # either, but it may not end the search while no line has matched ("yields no notice and no match only if no
+                # line of it matches" — the notice needs match_count > 0)
+                want = {V("Ok", I(0))} if m == "matched" else {V("Ok", I(1 if cnt == 0 else 0))}
+                if rets != want:
+                    told.append("match_count=%d ⇒ %s" % (cnt, sorted(map(str, rets))))
+        if printed:
             r.bad("standard|%s" % m, "StandardSink::%s can print a line after binary data was seen in convert mode" % m, fn=f,
                   loc=sk[0].loc, construct="convert-guard")
-            continue
-        s = Sccp(f).run([(c2[0][1][1], {})])
-        vals = {x for v in s.ret_values.values() for x in value_set(v)}
-        if m == "matched":
-            # a matching line after binary data: counted (match_count was incremented on entry), not printed, and the search stops
-            if vals == {V("Ok", I(0))}:
-                r.ok("standard|%s" % m, "convert ∧ offset seen ⇒ Ok(false) before StandardImpl::sink", fn=f)
-            else:
-                r.bad("standard|%s" % m, "the convert-mode guard of StandardSink::%s returns %s" % (m, vals), fn=f)
+        elif silent:
+            r.bad("standard|%s" % m, "StandardSink::%s withholds lines although no binary data was seen / not in convert mode" % m, fn=f,
+                  loc=sk[0].loc, construct="convert-guard")
+        elif told and m == "matched":
+            r.bad("standard|%s" % m, "the convert-mode guard of StandardSink::%s returns %s" % (m, "; ".join(told)[:100]), fn=f)
+        elif told:
+            r.bad("standard|%s" % m, "StandardSink::context ends the search as soon as a context line follows binary data in convert "
+                  "mode, whether or not a line has matched yet: with -B/-C/--passthru an explicitly named binary file that has a "
+                  "matching line gets neither its 'binary file matches' notice nor exit status 0 (%s)" % "; ".join(told)[:100],
+                  fn=f, construct="convert-guard")
+        elif m == "matched":
+            r.ok("standard|%s" % m, "convert ∧ offset seen ⇒ Ok(false) before StandardImpl::sink", fn=f)
         else:
-            # a context line after binary data is not printed either, but it may not end the search while no line has matched:
-            # "yields no notice and no match only if no line of it matches" — the notice needs match_count > 0
-            rets = [eb.rvalue(st["rv"]) for bb, j, st in f.stmts() if bb in s.exec_blocks and st["k"] == "assign" and
-                    st["place"]["l"] == 0 and not st["place"]["p"]]
-            on_count = rets and all(mentions_field(x, STD, "match_count") for x in rets)
-            if on_count and not any(isinstance(v_, tuple) and v_ == V("Ok", I(0)) for v_ in vals if v_ is not None and v_ == V("Ok", I(0)) and len(vals) == 1):
-                r.ok("standard|%s" % m, "convert ∧ offset seen ⇒ not printed; the search stops only once a match was counted", fn=f)
-            else:
-                r.bad("standard|%s" % m, "StandardSink::context ends the search as soon as a context line follows binary data in convert "
-                      "mode, whether or not a line has matched yet: with -B/-C/--passthru an explicitly named binary file that has a "
-                      "matching line gets neither its 'binary file matches' notice nor exit status 0", fn=f, construct="convert-guard")
+            r.ok("standard|%s" % m, "convert ∧ offset seen ⇒ not printed; the search stops only once a match was counted", fn=f)
     # the separator between context groups is output too: not after binary data in convert mode
     cb = facts.fn("<%s as %s>::context_break" % (STD, SINK))
-    ebc = ExprBuilder(cb)
     ws = [c for c in cb.calls() if c.path.endswith("write_context_separator")]
-    k1 = cond_switches(cb, lambda e: is_call(e, "core::option::Option::is_some") and
-                       mentions_call(e, "grep_searcher::searcher::BinaryDetection::convert_byte"), ebc)
-    k2 = cond_switches(cb, lambda e: is_call(e, "core::option::Option::is_some") and mentions_field(e, STD, "binary_byte_offset"), ebc)
-    if ws and k1 and k2 and ws[0].bb not in C.reach(cb, [0], removed_edges={k1[0][2], k2[0][2]}):
+    bad_cb = [1 for hidden, cnt, rets, sx in rows_of(cb) if hidden and any(c.bb in sx.exec_blocks for c in ws)]
+    lost_cb = [1 for hidden, cnt, rets, sx in rows_of(cb) if not hidden and not any(c.bb in sx.exec_blocks for c in ws)]
+    if ws and not bad_cb and not lost_cb:
         r.ok("standard|context_break", "no context separator after binary data in convert mode", fn=cb)
+    elif ws and lost_cb and not bad_cb:
+        r.bad("standard|context_break", "StandardSink::context_break withholds `--` although nothing hides the lines around it", fn=cb,
+              construct="convert-guard")
     else:
         r.bad("standard|context_break", "StandardSink::context_break writes `--` even after binary data was seen in convert mode: a file "
               "that only gets a notice (or nothing) still emits separators", fn=cb, construct="convert-guard")
